@@ -161,3 +161,35 @@ prop("C19", "Context variables form a last-write-wins store visible to later rul
     ("get_of_unbound_is_nil", "get_unbound", "Get of an unbound name yields nil without error"),
     ("lookup_is_pure", "ctx_get_preserves", "looking a variable up changes no binding"),
 ])
+
+prop("C08", "Parse is total: a tree or an error, never a panic, hang or silent acceptance", [
+    ("parse_terminates", "parse_fuel_sufficient", "for every byte string, every nesting depth and every offset: with fuel above the number of bytes left the parser never runs out of fuel (each control line consumes at least one byte; a nested block that ends without error has consumed its closing brace and restored the counters)"),
+    ("parse_api_terminates", "parse_pure_terminates", "so Parse itself, run with fuel length+2, terminates with a tree or an error"),
+    ("control_line_is_nonempty_prefix", "next_ctl_spec", "the line cutter returns a non-empty prefix of the text at an offset that does not move backwards"),
+    ("every_step_progresses", "process_progress", "processCtl: a statement or nested block advances the offset and restores the counters, a closing brace consumes one byte, an error is an error"),
+    ("nested_blocks_restore_counters", "parse_nested_ok", "a nested block that ends without error has reached its target"),
+    ("surplus_closing_brace_rejected", "surplus_close_rejected", "a closing brace with no open block is rejected with ErrUnexpectedClose"),
+    ("surplus_closing_brace_line", "surplus_close_line", "the line `}` at top level, regular expressions evaluated"),
+    ("stray_else_rejected", "stray_else_line", "`} else {` with no open block is rejected"),
+    ("unclosed_block_rejected", "eof_in_block_rejected", "end of input inside an open block is rejected with ErrUnbalancedCtl"),
+    ("unregistered_callback_rejected", "unknown_callback_rejected", "a call line naming no registered callback is rejected"),
+    ("regex_groups_always_there", "re_find_length", "a successful regular-expression match has exactly ncap+1 groups: the m[i] of the parser never index out of range"),
+    ("regex_engine_terminates", "re_exec_fuel", "the model of the regexp engine never runs out of fuel"),
+], imports=PARSER_IMPORTS)
+
+prop("C09", "The parsed tree reflects the program, not its layout", [
+    ("leading_layout_skipped", "skip_fmt_layout", "indentation with blanks or tabs, blank lines, LF or CRLF line ends and `;` before a statement are skipped"),
+    ("layout_only_tail_is_end_of_input", "skip_fmt_none_all", "a tail of layout bytes (with or without a final newline) is the end of input"),
+    ("trailing_blanks_dropped", "trim_right_blank_nonempty", "blanks and tabs at the end of a control line are trimmed and never empty the line"),
+    ("comments_produce_no_node", "comment_skipped", "whole-line # comments are consumed without a node (// likewise, by the same branch)"),
+    ("control_line_cut", "next_ctl_spec", "a control line is cut out of the text at the first non-layout byte"),
+], imports=PARSER_IMPORTS)
+
+prop("C20", "Parse is a pure function of the rule text", [
+    ("parse_ignores_registry", "parse_ignores_registry", "whatever the registry holds (trees that Parse returned earlier, hand-made zero trees), Parse returns what parsing the text returns"),
+    ("history_parses_are_pure", "history_parses_are_pure", "in every history of Parse / Register* calls each Parse returns exactly the result of parsing its text"),
+    ("from_empty_registry", "history_from_empty_registry", "in particular from the empty registry"),
+    ("parsed_trees_are_well_formed", "mk_tree_wf", "a tree records a text only if it is the tree of that text"),
+    ("registration_keeps_registry_well_formed", "set_wf", "registering a well-formed tree keeps the registry well formed"),
+    ("parse_terminates", "parse_pure_terminates", "and Parse terminates"),
+], imports=PARSER_IMPORTS)
